@@ -155,6 +155,9 @@ func graphiteExpected(w *workload, c graphiteCfg) []rec {
 				for b, cnt := range s.histF {
 					out = append(out, rec{Name: n.path(n.counter, s.Name, "histogram"), Tags: graphiteTags(append(append([]string(nil), s.Tags...), leTag(b)), s.Source, n.tags), Val: float64(cnt), Class: "timer.histogram", Ser: i})
 				}
+				for _, suffix := range allTimerSubs() {
+					out = append(out, rec{Name: n.path(n.timer, s.Name, suffix), Tags: tg, Class: gsdSummary, Ser: i, Forbidden: true})
+				}
 				continue
 			}
 			for _, sm := range stdTimerSubs(s, w.Disabled) {
